@@ -27,21 +27,28 @@ type Hdr struct {
 
 // Step is one write.
 type Step struct {
-	Kind   string `json:"kind"` // req raw udp close (close = the peer closes connection Conn)
-	Name   string `json:"name"`
-	Method string `json:"method,omitempty"`
-	URL    string `json:"url,omitempty"`
-	Proto  string `json:"proto,omitempty"`
-	Hdrs   []Hdr  `json:"hdrs,omitempty"`
-	Body   string `json:"body,omitempty"`
-	Raw    []byte `json:"raw,omitempty"`
-	Wrap   string `json:"wrap,omitempty"`   // "" b64 ws
-	Conn   int    `json:"conn"`             // connection the step is written on
-	RConn  int    `json:"rconn"`            // connection the answer is expected on
-	Expect string `json:"expect,omitempty"` // rtsp http "" (nothing expected)
-	Glue   bool   `json:"glue,omitempty"`   // written together with the next step (pipelined, one write)
-	Port   int    `json:"port,omitempty"`   // udp: source port; destination is the server's RTP (even) / RTCP (odd) port
-	Grp    int    `json:"grp,omitempty"`    // session-id group ({S} is the id last seen in this group's responses)
+	Kind   string  `json:"kind"` // req raw udp close (close = the peer closes connection Conn)
+	Name   string  `json:"name"`
+	Method string  `json:"method,omitempty"`
+	URL    string  `json:"url,omitempty"`
+	Proto  string  `json:"proto,omitempty"`
+	Hdrs   []Hdr   `json:"hdrs,omitempty"`
+	Body   string  `json:"body,omitempty"`
+	Raw    []byte  `json:"raw,omitempty"`
+	Wrap   string  `json:"wrap,omitempty"`   // "" b64 ws
+	Conn   int     `json:"conn"`             // connection the step is written on
+	RConn  int     `json:"rconn"`            // connection the answer is expected on
+	Expect string  `json:"expect,omitempty"` // rtsp http "" (nothing expected)
+	Glue   bool    `json:"glue,omitempty"`   // written together with the next step (pipelined, one write)
+	Port   int     `json:"port,omitempty"`   // udp: source port; destination is the server's RTP (even) / RTCP (odd) port
+	Grp    int     `json:"grp,omitempty"`    // session-id group ({S} is the id last seen in this group's responses)
+	Burst  []Burst `json:"burst,omitempty"`  // kind burst: written on several connections back to back, no barrier in between
+}
+
+// Burst is one write of a burst step.
+type Burst struct {
+	Conn int    `json:"conn"`
+	Raw  []byte `json:"raw"`
 }
 
 const (
@@ -341,7 +348,26 @@ func convsFor(tls bool) []string {
 	return convNames
 }
 
-var convNames = []string{"play-tcp", "play-udp", "record-tcp", "record-udp", "http-tunnel", "websocket", "auth-describe", "play-tcp-stalled"}
+var convNames = []string{"play-tcp", "play-udp", "record-tcp", "record-udp", "http-tunnel", "websocket", "auth-describe", "play-tcp-stalled", "http-tunnel-burst"}
+
+// burstConv: the halves of an HTTP tunnel arriving in a burst. Five rounds; in each, one GET half is
+// registered, then FOUR connections send the POST half with the same cookie back to back (no barrier in
+// between, so the server's main loop sees them in whatever order its goroutines arrive), then the tunnel
+// that was formed is used for one request. The order of arrival is the Go scheduler's; five rounds per
+// execution and the repetition over the deviation catalogue give it many chances.
+func burstConv() []Step {
+	var c []Step
+	for r := 0; r < 5; r++ {
+		cookie := fmt.Sprintf("burst%d", r)
+		c = append(c, Step{Kind: "raw", Name: "HTTP-GET", Raw: httpReq("GET", cookie, false), Conn: 10 * r, RConn: 10 * r, Expect: "http"})
+		b := Step{Kind: "burst", Name: "HTTP-POST-x4"}
+		for k := 1; k <= 4; k++ {
+			b.Burst = append(b.Burst, Burst{Conn: 10*r + k, Raw: httpReq("POST", cookie, true)})
+		}
+		c = append(c, b)
+	}
+	return c
+}
 
 // stalledConv: a reader over TCP that stops reading once it plays (the harness then writes enough
 // packets to the stream for the server's writer to block inside a socket write) and keeps sending
@@ -365,6 +391,8 @@ func baseConv(name string) []Step {
 		return playConv("udp")
 	case "play-tcp-stalled":
 		return stalledConv()
+	case "http-tunnel-burst":
+		return burstConv()
 	case "record-tcp":
 		return recordConv("tcp")
 	case "record-udp":
